@@ -339,6 +339,11 @@ def run(chk, tier, jobs, deadline):
     for sig in sorted(seen_crash):
         cs = sorted(seen_crash[sig], key=lambda c: (len(c.get("one", "")), c.get("one", "")))
         c = cs[0]
+        r = subprocess.run([exes[c["variant"]], "--one"] + c.get("one", "").split(" "), capture_output=True,
+                           env=_env(c["variant"]))
+        if r.returncode == 0:
+            chk.broke("crash %s (%s) did not reproduce on replay" % (sig, c.get("one")))
+            continue
         text = "%s while %s was running (%s); case: h_addr --one %s  [%d occurrence(s)]\n%s" % (
             c.get("kind"), c.get("fn"), c.get("desc"), c.get("one"), len(cs),
             "\n".join(c.get("stderr", "").splitlines()[:14]))
